@@ -17,7 +17,8 @@ CFG = {'assumptions': ['f64 inputs cross the boundary as bit patterns and are de
                  'exact bounding-box middle (the branch coord.y == y_mid is taken on a rounded value) are SKIPped as '
                  'near-ties — unless the implementation panics, which is always judged'],
  'count': {'quick': 60000, 'thorough': 2400000},
- 'lean_files': ['GeoModel/Closest.lean', 'GeoModel/InteriorPoint.lean', 'GeoModel/Ops/C12.lean',
+ 'translator': True,
+ 'lean_files': ['GeoModel/TRANPrelude.lean', 'GeoModel/Gen/ClosestGen.lean', 'GeoProofs/Lemmas/TRAN2Closest.lean', 'GeoModel/Closest.lean', 'GeoModel/InteriorPoint.lean', 'GeoModel/Ops/C12.lean',
                 'GeoModel/RelateSpec.lean', 'GeoModel/Valid.lean', 'GeoModel/Centroid.lean',
                 'GeoProofs/Lemmas/C12Line.lean', 'GeoProofs/Lemmas/C12Fold.lean',
                 'GeoProofs/Lemmas/C12Closest.lean', 'GeoProofs/Lemmas/C12Interior.lean',
@@ -33,7 +34,12 @@ CFG = {'assumptions': ['f64 inputs cross the boundary as bit patterns and are de
          'Line/LineString/Triangle/Rect; query points on a vertex, on an edge midpoint, one grid unit from a '
          'vertex, at the bounding-box centre (equidistant from several parts), anywhere on the half-unit lattice; '
          'a case is distinct by its input text; trivial = empty geometry',
- 'trusted_base': ['modelled, not verified: the Bentley-Ottmann sweep (geo/src/algorithm/sweep/**) is replaced in the '
+ 'trusted_base': ['translator/rs2lean.py + rsexpr.py + jobs2.py for closest_point.rs / Closest::best_of_two (explicit choices: Euclidean.distance and '
+                  'Euclidean.length are abstract parameters constrained only by "orders pairs like the squared distance" / "zero exactly on '
+                  'zero-length lines"; Point = Coord = Pt with Point::from / .into() / p.0 the identity; LineString::lines() = consecutive pairs; '
+                  'iter().chain(once(x)) = append; Polygon: Intersects<Point> = coordinate_position != Outside, which is tied in C02; '
+                  'exact rationals: no NaN, no rounding)',
+                  'modelled, not verified: the Bentley-Ottmann sweep (geo/src/algorithm/sweep/**) is replaced in the '
                   'model by what it is documented to compute — line_intersection of every polygon edge with the scan '
                   'line; the correspondence runs the real sweep',
                   'modelled, not verified: polygon.relate(&midpoint) is replaced by the DE-9IM specification '
@@ -92,7 +98,10 @@ MANIFEST = {'note': 'Trusted: Lean 4.33 kernel (axioms propext, Classical.choice
          'the shell wind around every hole crossing. Hence interior_point is strictly Inside for EVERY OGC-valid polygon and for '
          'every non-empty MultiPolygon of valid members (interior_strict_valid, interior_polygon_inside_valid, '
          'interior_multipolygon_inside_valid), no hypothesis besides polyValid. The '
-         'MultiPolygon answer has maximal verified width. Each run the real closest_point / interior_point are run '
+         'MultiPolygon answer has maximal verified width. Translator tie (TRAN2, closestPoint_eq_source_partial): best_of_two, '
+         'Point / Line::closest_point (zero-length guard, projection parameter, t < 0 / t > 1 split, intersects test), the closest_of loop with its '
+         'short circuit, and the LineString / Polygon / Triangle / Rect / Multi* / GeometryCollection impls of the model equal the terms regenerated '
+         'from closest_point.rs and types.rs on this run (GeoModel/Gen/ClosestGen.lean), the two square roots being parameters. Each run the real closest_point / interior_point are run '
          'on generated geometries and the implementation\'s own f64 output is judged exactly by the DE-9IM '
          'specification: variant tag exact, returned point on g and nearest within tolerance; interior point not '
          'Outside, and Inside for every valid non-empty g (fails, as known finding K1, for the start point of a '
